@@ -72,6 +72,9 @@ SeekRef(view, r, cutlen) ==
 
 GetRef(view, k) == IF k \in DOMAIN view THEN view[k] ELSE NotFound
 
+\* a map written out as the sorted sequence of its <<key, value>> pairs (JSON-able)
+MapPairs(m) == LET ks == SortedKeys(DOMAIN m, FALSE) IN [i \in 1..Len(ks) |-> <<ks[i], m[ks[i]]>>]
+
 -----------------------------------------------------------------------------
 (* effects of writes on the abstract state *)
 PutIn(layers, i, k, v)   == [layers EXCEPT ![i] = Overlay(@, (k :> v))]
@@ -81,4 +84,34 @@ DiskApply(disk, m)       == LET o == Overlay(disk, m) IN [k \in {x \in DOMAIN o 
 FlushLayers(layers, i)   == IF i = 1 THEN [layers EXCEPT ![1] = EmptyMap]
                             ELSE [layers EXCEPT ![i] = EmptyMap, ![i - 1] = Overlay(@, layers[i])]
 FlushDisk(disk, layers, i) == IF i = 1 THEN DiskApply(disk, layers[1]) ELSE disk
+
+-----------------------------------------------------------------------------
+(* Readers running concurrently with writers and flushes.
+
+   `views` is the sequence of contents of the one map: views[1] initially, views[w + 1] after the w-th committed
+   write (a write is an atomic batch, possibly of one key); flushes are not in it - they change no answer.
+   bkeys[w] is the key set of the w-th batch.  A read (point read or range scan, here over the keys KS) that was
+   invoked when the map was views[from] and returned when it was views[to] answered `res` (a map).
+   Explain(k) = the instants of the interval whose content agrees with the answer on key k.                 *)
+Explain(views, from, to, res, k) == {i \in from..to : GetRef(views[i], k) = GetRef(res, k)}
+
+(* "never see a committed key temporarily missing": a key present throughout the interval is in the answer *)
+NeverMissingP(views, from, to, res, KS) ==
+    \A k \in KS : (\A i \in from..to : k \in DOMAIN views[i]) => k \in DOMAIN res
+(* "never a stale value": what is answered for a key was its state at some instant of the interval *)
+NoStaleP(views, from, to, res, KS) == \A k \in KS : Explain(views, from, to, res, k) # {}
+(* "never half of a batch": no batch committed during the interval is reflected for one of its keys and not yet
+   for another one (w ranges over the writes of the interval; views[w + 1] is the first content including it) *)
+NoHalfBatchP(views, bkeys, from, to, res, KS) ==
+    \A w \in from..(to - 1) :
+       ~ \E k1 \in bkeys[w] \cap KS, k2 \in bkeys[w] \cap KS :
+            LET e1 == Explain(views, from, to, res, k1)
+                e2 == Explain(views, from, to, res, k2)
+            IN  /\ e1 # {} /\ e2 # {}
+                /\ \A i \in e1 : i >= w + 1          \* k1 is answered as of the batch or later
+                /\ \A i \in e2 : i <= w              \* k2 is answered as of before the batch
+(* stronger, NOT part of the property statement (recorded as information only): the whole answer is the content
+   at one instant of the interval *)
+SnapshotP(views, from, to, res, KS) ==
+    \E i \in from..to : \A k \in KS : GetRef(views[i], k) = GetRef(res, k)
 =============================================================================
